@@ -335,3 +335,68 @@ array_u32 = dict(
     dropped=['reference-to-array parameter as pointer-to-array', 'std::array as a struct holding T[N]'], trusted=['memcpy (CBMC built-in)'],
     assumes=['harness assume: ghost element index < N'], allow_assume=True, min_obligations=5)
 UNITS += [array_u32]
+
+# ------------------------------------------------------------------------------------------ DeferredFormatCodec<T>, the copy-construct arm (T not trivially copyable)
+DH = 'quill/DeferredFormatCodec.h'
+DEF_PRE = r'''
+/* one proof for every T: sizeof(T) and alignof(T) are symbolic (alignof a power of two) */
+size_t SIZEOF_T, ALIGNOF_T;
+#define POW2(x) ((x) != 0 && (((x) & ((x) - 1)) == 0))
+typedef struct Tobj { int d; } Tobj;                       /* the user's object: opaque */
+uintptr_t g_span_lo, g_span_hi;                            /* the bytes reserved for this argument: [lo, hi) */
+uintptr_t g_placed_at; size_t g_placements, g_moves, g_destroys; bool g_trivially_destructible;
+void PLACEMENT_COPY(uintptr_t where, Tobj const* arg)
+__CPROVER_requires((where & (ALIGNOF_T - 1)) == 0) /*@ C04 "the copy of the object is constructed at an address aligned for its type" */
+__CPROVER_requires(where >= g_span_lo && where + SIZEOF_T <= g_span_hi) /*@ C04 "the copy of the object lies inside the bytes reserved for it" */
+__CPROVER_assigns(g_placed_at, g_placements) __CPROVER_ensures(g_placed_at == where && g_placements == OLD(g_placements) + 1);
+void MOVE_OUT(uintptr_t from)
+__CPROVER_requires(from == g_placed_at && g_placements == 1 && g_destroys == 0) /*@ C04 "the backend reads the object from exactly the address where the frontend constructed it" */
+__CPROVER_assigns(g_moves) __CPROVER_ensures(g_moves == OLD(g_moves) + 1);
+void DESTROY_AT(uintptr_t at) __CPROVER_requires(at == g_placed_at && g_moves == 1) __CPROVER_assigns(g_destroys) __CPROVER_ensures(g_destroys == OLD(g_destroys) + 1);
+'''
+DEF_GXX = 'struct VerifNT { VerifNT(); VerifNT(VerifNT const&); VerifNT(VerifNT&&); ~VerifNT(); int x; }; using T = VerifNT; static constexpr bool use_memcpy = quill::DeferredFormatCodec<VerifNT>::use_memcpy;'
+DEF_RULES = [(r'\bbuffer\b', '(*buffer_p)'), (r'\bsizeof\(T\)', 'SIZEOF_T'), (r'\balignof\(T\)', 'ALIGNOF_T'), (r'\bauto\s+aligned_ptr\s*=', 'uintptr_t const aligned_ptr ='),
+             (r'align_pointer\(\(\*buffer_p\),\s*ALIGNOF_T\)', 'DF_align_pointer((uintptr_t)(*buffer_p), ALIGNOF_T)'),
+             (r'static_assert\([^;]*\);', ''), (r'new\s*\(static_cast<void\*>\(aligned_ptr\)\)\s*T\(arg\)\s*;', 'PLACEMENT_COPY(aligned_ptr, arg_p);'),
+             (r'auto\s*\*\s*tmp\s*=\s*std::launder\(reinterpret_cast<T\*>\(aligned_ptr\)\)\s*;', 'uintptr_t const tmp = aligned_ptr;'), (r'T\s+arg\{std::move\(\*tmp\)\}\s*;', 'MOVE_OUT(tmp);'),
+             (r'tmp->~T\(\)\s*;', 'DESTROY_AT(tmp);'), (r'return\s+arg\s*;', 'return;')]
+deferred_funcs = [
+    dict(src=dict(header=DH, cls='DeferredFormatCodec', name='align_pointer'), src_params=['pointer', 'alignment'], cfun='DF_align_pointer', sig='uintptr_t DF_align_pointer(uintptr_t pointer, size_t alignment)', member_fields=[],
+         pre_rules=[(r'reinterpret_cast<std::byte\*>\(\(reinterpret_cast<uintptr_t>\(pointer\)', '((uintptr_t)((pointer)')],
+         contract=r'''
+__CPROVER_requires(POW2(alignment) && alignment <= (((size_t)1) << 30) && pointer < (((uintptr_t)1) << 62))
+__CPROVER_assigns()
+__CPROVER_ensures(RET >= pointer && RET - pointer < alignment && (RET & (alignment - 1)) == 0) /*@ C04 "align_pointer returns the first address not below the pointer that is a multiple of the alignment" */
+'''),
+    dict(src=dict(header=DH, cls='DeferredFormatCodec', name='compute_encoded_size'), cfun='DF_compute_encoded_size', sig='size_t DF_compute_encoded_size(void)', member_fields=[], constexpr_gxx=DEF_GXX, pre_rules=DEF_RULES),
+    dict(src=dict(header=DH, cls='DeferredFormatCodec', name='encode'), cfun='DF_encode', sig='void DF_encode(unsigned char** buffer_p, Tobj const* arg_p)', member_fields=[], constexpr_gxx=DEF_GXX, pre_rules=DEF_RULES),
+    dict(src=dict(header=DH, cls='DeferredFormatCodec', name='decode_arg'), cfun='DF_decode_arg', sig='void DF_decode_arg(unsigned char** buffer_p)', member_fields=[],
+         constexpr=lambda cond: (None if 'trivially_destructible' in cond else False), pre_rules=DEF_RULES + [(r'!std::is_trivially_destructible_v<T>', '(!g_trivially_destructible)')]),
+    dict(cfun='lem_roundtrip', text=r'''
+void lem_roundtrip(unsigned char* base, size_t k, Tobj const* obj)
+__CPROVER_requires(POW2(ALIGNOF_T) && ALIGNOF_T <= 4096 && SIZEOF_T >= 1 && SIZEOF_T <= (((size_t)1) << 20) && k < ALIGNOF_T && __CPROVER_is_fresh(base, SIZEOF_T + 2 * ALIGNOF_T) && (uintptr_t)base < (((uintptr_t)1) << 61) && g_placements == 0 && g_moves == 0 && g_destroys == 0)
+__CPROVER_assigns(g_span_lo, g_span_hi, g_placed_at, g_placements, g_moves, g_destroys)
+__CPROVER_ensures(g_placements == 1 && g_moves == 1 && (g_destroys == (g_trivially_destructible ? 0 : 1))) /*@ C04 "the object is copy-constructed into the record once, moved out of it once and - unless trivially destructible - destroyed there once" */
+{
+  unsigned char* buf = base + k;       /* the record starts at an arbitrary offset from any alignment boundary */
+  size_t const size = DF_compute_encoded_size();
+  g_span_lo = (uintptr_t)buf; g_span_hi = (uintptr_t)buf + size;
+  unsigned char* w = buf;
+  DF_encode(&w, obj);
+  __CPROVER_assert((uintptr_t)w == (uintptr_t)buf + size, "C04: bytes written by encode == bytes reserved by the size pass");
+  unsigned char* r = buf;
+  DF_decode_arg(&r);
+  __CPROVER_assert(r == w, "C04: bytes consumed by decode == bytes written by encode");
+}
+''')]
+deferred = dict(
+    name='CD.deferred[copy-construct]', primary='C04', props={'C04'}, kind='L',
+    desc='DeferredFormatCodec<T>, the arm for types that are not trivially copyable (selected by g++ for a user type with non-trivial special members), with sizeof(T) / alignof(T) symbolic: the copy is constructed aligned and inside the reserved bytes, read back from the same address, and reserved == written == consumed',
+    structs=[], prelude=DEF_PRE, enforce='lem_roundtrip', replace=['PLACEMENT_COPY', 'MOVE_OUT', 'DESTROY_AT'], funcs=deferred_funcs, harness='  unsigned char* b; size_t k; Tobj* o; lem_roundtrip(b, k, o);',
+    dropped=['the user type itself: copy / move construction and destruction as ghost events at an address', 'std::launder / reinterpret_cast as identity on the address', 'static_asserts', 'the memcpy arm (trivially copyable types): same shape as the arithmetic arm of the primary codec'],
+    trusted=['the record is decoded at the address it was encoded at (queue storage is not copied; C01/C02)'], min_obligations=10)
+deferred_align = dict(
+    name='CD.deferred.align_pointer', primary='C04', props={'C04'}, kind='L', desc='DeferredFormatCodec::align_pointer: round an address up to a power-of-two alignment',
+    structs=[], prelude=DEF_PRE, enforce='DF_align_pointer', replace=[], funcs=[deferred_funcs[0]], harness='  uintptr_t p; size_t a; DF_align_pointer(p, a);',
+    dropped=['pointer as uintptr_t'], trusted=[], min_obligations=3)
+UNITS += [deferred_align, deferred]
